@@ -296,6 +296,8 @@ def c15_fault(o, inputs, faulted, fault_file, continue_on_error, mode, originals
             out.append({"kind": "other-file-affected", "detail": {"file": other_path, "with_failing_file": [list(x) for x in got][:6], "alone": [list(x) for x in other_alone_fails][:6]}})
     files = dict_of(o.files)
     for p in inputs:
+        if originals[p] is None:
+            continue  # the undecodable file itself: its bytes are not text
         t = files.get(p)
         if t is None:
             out.append({"kind": "input-file-missing", "detail": {"file": p}})
